@@ -322,7 +322,9 @@ def inline_internal_procedures(routine, allowed_aliases=None):
                 call for call in FindNodes(CallStatement).visit(routine.body)
                 if call.routine == child
             )
-            inline_subroutine_calls(routine, calls, child, allowed_aliases=allowed_aliases)
+            if calls:
+                # Nothing to inline (and no declarations to hoist) for a procedure that is never called
+                inline_subroutine_calls(routine, calls, child, allowed_aliases=allowed_aliases)
 
         # Can't use transformer to replace subroutine/function, so strip it manually
         contains_body = tuple(n for n in routine.contains.body if not n == child)
